@@ -358,7 +358,7 @@ def _damage_case(plan, scratch, seed, snap, st, rows, count, case) -> dict:
                          f"{'changed (checksum verification on)' if clause == 'N.data_change_undetected' else 'missing/unparseable'}",
                   "sig": f"{clause}|{kind}|{'delete' if how == 'delete' else how.rstrip('0123456789_m')}|"
                          f"{'same' if same else ('empty' if got_n == 0 else 'other')}"
-                         + ("|prebuilt" if "/pre_" in rel else ""),
+                         + ("|prebuilt" if "pre_" in rel.rsplit("/", 1)[-1] else ""),
                   "plan_patch": {"cases": [case]}})
         break
     res = common.assemble(ph, V, nontriv, cfg, {"file": rel, "damage": how, "parses": parses,
